@@ -93,7 +93,7 @@ def cfg_key(cfg):
 
 
 def short(cfg):
-    return f"{cfg['kind']}/d{cfg['dims']}/n{cfg.get('n')}/b{cfg['batch']}"
+    return f"{cfg['kind']}{'/' + cfg['op'] if 'op' in cfg else ''}/d{cfg['dims']}/n{cfg.get('n')}/b{cfg['batch']}"
 
 
 # ------------------------------------------------------------------ the property's own oracle
@@ -172,6 +172,117 @@ def coq_case(cfg, out):
     return (cfg_key(cfg),
             f'batch_case {fuel}%nat {cfg["batch"]}%nat {len(out["batches"])}%nat {gd.zcols_list(out["draws"])} '
             f'{gd.zcols_list(out["batches"])} {out["taken"]}%nat')
+
+
+# ------------------------------------------------------------------ a BatchGenerator as an OPERAND of the combinators
+OPERAND_OPS = ('add', 'radd', 'mul', 'xor', 'concat', 'ensemble', 'mesh', 'transform', 'filter', 'resample', 'sampler', 'static')
+
+
+class _Identity:
+    def randperm(self, n):
+        return list(range(n))
+
+    def randint(self, high, size):
+        return [i % max(high, 1) for i in range(size)]
+
+
+def run_operand(torch, G, SpyLeaf, cfg):
+    """cfg: {kind:'operand', op, dims, n, batch, calls, m}.  A spied source S, bg = BatchGenerator(S, batch), then a
+    combinator built over bg (infix operator or constructor).  Returns the source's draws, how many were taken when bg /
+    the composite were constructed, and the part of every composite result that comes from bg."""
+    d, b, n, calls, op, m = cfg['dims'], cfg['batch'], cfg['n'], cfg['calls'], cfg['op'], cfg.get('m', 3)
+    src = SpyLeaf(0, d, [n], 'list')
+    gd.spy_on(src, torch)
+    out = {'draws': src._spy_log, 'batches': [], 'error': None, 'taken_bg': None, 'taken_ctor': None}
+    try:
+        with gd.scripted_rng(torch, _Identity()):
+            bg = G.BatchGenerator(src, b)
+            out['taken_bg'] = len(src._spy_log)
+            od = d if op in ('add', 'radd', 'concat') else 1
+            other = SpyLeaf(1, od, [b if op in ('mul', 'ensemble') else m], 'list')
+            comp = {'add': lambda: bg + other, 'radd': lambda: other + bg, 'mul': lambda: bg * other, 'xor': lambda: bg ^ other,
+                    'concat': lambda: G.ConcatGenerator(bg, other), 'ensemble': lambda: G.EnsembleGenerator(bg, other),
+                    'mesh': lambda: G.MeshGenerator(bg, other),
+                    'transform': lambda: G.TransformGenerator(bg, transform=lambda *xs: xs[0] if len(xs) == 1 else xs),
+                    'filter': lambda: G.FilterGenerator(bg, lambda xs: torch.ones(len(xs[0]), dtype=torch.bool)),
+                    'resample': lambda: G.ResampleGenerator(bg), 'sampler': lambda: G.SamplerGenerator(bg),
+                    'static': lambda: G.StaticGenerator(bg)}[op]()
+            out['taken_ctor'] = len(src._spy_log)
+            for _ in range(calls):
+                _, cols = gd.to_cols(comp.get_examples(), torch, two_d=(op == 'sampler'))
+                if op in ('add', 'concat'):
+                    part = [c[:len(c) - m] for c in cols]
+                elif op == 'radd':
+                    part = [c[m:] for c in cols]
+                elif op in ('mul', 'ensemble'):
+                    part = cols[:d]
+                elif op in ('xor', 'mesh'):
+                    part = [cols[0][::m]]
+                else:
+                    part = cols
+                out['batches'].append(part)
+    except gd.Malformed as e:
+        out['error'] = f'Malformed: {e}'
+    except Exception as e:
+        out['error'] = type(e).__name__
+    out['taken'] = len(src._spy_log)
+    return out
+
+
+def oracle_operand(cfg, out):
+    op, b, n = cfg['op'], cfg['batch'], cfg['n']
+    name = f'{op}(BatchGenerator(S[{n}x{cfg["dims"]}], {b}))'
+    if out['error']:
+        note_failure(f'operand-raises/{op}', cfg, f'{name} raised {out["error"]}', 'batches', out['error'])
+        return False
+    # draws taken at construction: the batch generator's own first draw, nothing for the (lazy) combinators,
+    # one whole batch for a StaticGenerator
+    want_ctor = 1
+    if op == 'static':
+        have = n
+        while have < b:
+            have += n
+            want_ctor += 1
+    if out['taken_bg'] != 1 or out['taken_ctor'] != want_ctor:
+        note_failure(f'operand-construction/{op}', cfg,
+                     f'{name}: {out["taken_ctor"]} draw(s) had been taken from the source when the composite was constructed '
+                     f'({out["taken_bg"]} by the BatchGenerator itself), expected {want_ctor}: constructing a combinator must not sample its operands',
+                     want_ctor, out['taken_ctor'])
+        return False
+    try:
+        drawn = [r for c in out['draws'] for r in gd.rows_of(c)]
+        got = [gd.rows_of(p) for p in out['batches']]
+    except gd.Malformed as e:
+        note_failure(f'operand-stream/{op}', cfg, f'{name}: {e}', None, None)
+        return False
+    for i, rows in enumerate(got):
+        want = drawn[:b] if op == 'static' else drawn[i * b:(i + 1) * b]
+        if rows != want:
+            note_failure(f'operand-stream/{op}', cfg,
+                         f'{name}, call {i}: the rows delivered through the composite are {[list(r) for r in rows[:4]]}..., the '
+                         f'{"first batch" if op == "static" else "stream"} of the underlying draws (starting with the FIRST draw) has {[list(r) for r in want[:4]]}...',
+                         [list(r) for r in want[:6]], [list(r) for r in rows[:6]])
+            return False
+    return True
+
+
+def enumerate_operands():
+    for op in OPERAND_OPS:
+        for n in (1, 3, 8):
+            for b in (1, 2, 5, 9):
+                for d in ((1,) if op in ('xor', 'mesh') else (1, 2)):
+                    yield {'kind': 'operand', 'op': op, 'dims': d, 'n': n, 'batch': b, 'calls': 3, 'm': 3}
+
+
+def explore_operands(ck, torch, G, SpyLeaf, cfgs, dist):
+    for cfg in cfgs:
+        out = run_operand(torch, G, SpyLeaf, cfg)
+        ok = oracle_operand(cfg, out)
+        dist[f'operand/{cfg["op"]}'] = dist.get(f'operand/{cfg["op"]}', 0) + 1
+        ck.add_case(cfg_key(cfg))
+        ck.traces += len(out['batches'])
+        if cfg['n'] == 3 and cfg['batch'] == 2 and cfg['dims'] == 1 and cfg['op'] in ('add', 'static') and len(ck.samples) < 10:
+            ck.sample({'config': cfg, 'draws_at_construction': out['taken_ctor'], 'delivered_through_composite': out['batches'][:2], 'oracle_ok': ok})
 
 
 # ------------------------------------------------------------------ input generation
@@ -279,7 +390,9 @@ def main():
     if ck.replay:
         rp = json.load(open(ck.replay))
         cfg = rp.get('input')
-        if isinstance(cfg, dict) and 'batch' in cfg:
+        if isinstance(cfg, dict) and cfg.get('kind') == 'operand':
+            explore_operands(ck, torch, G, SpyLeaf, [cfg], dist)
+        elif isinstance(cfg, dict) and 'batch' in cfg:
             out = run_config(torch, G, SpyLeaf, cfg)
             ok = oracle(ck, cfg, out)
             ck.add_case(cfg_key(cfg))
@@ -299,6 +412,7 @@ def main():
         explore(ck, torch, G, SpyLeaf, (c for c in enumerate_fixed(12, True) if c['dims'] != 1 + (c['n'] + c['batch']) % 3), dist, coq=False)
     cases += explore(ck, torch, G, SpyLeaf, enumerate_varying(5 if th else 3, 6 if th else 5), dist)
     cases += explore(ck, torch, G, SpyLeaf, enumerate_persistent(), dist)
+    explore_operands(ck, torch, G, SpyLeaf, enumerate_operands(), dist)
     cases += explore(ck, torch, G, SpyLeaf, (random_config(r, 240) for _ in range(2000 if th else 150)), dist)
     # long histories (up to 40 calls x batch 20): implementation oracle on all, Coq on a sample
     long_cfgs = [random_config(r, 800) for _ in range(8000 if th else 400)]
